@@ -119,6 +119,22 @@ def tus(tier, seed):
         res.append(dict(name='C12_asge_%d' % (i // 3), src=body, compiler='g++'))
         if tier == 'thorough' and (i // 3) % 4 == 1:
             res.append(dict(name='C12_asge_%d_clang' % (i // 3), src=body, compiler='clang++'))
+    # nests combined with cnl::constant<V>
+    cpairs = [('ov', 'u8', 5), ('ov', 'u16', -3), ('rd', 'u8', 200), ('rd', 'i8', -1), ('ov(rd)', 'u16', 7), ('ov', 'i32', 70000), ('rd', 'u32', -2),
+              ('ov', 'i64', 5000000000), ('ov', 'u64', -7), ('rd', 'i16', 3)]
+    for i in range(0, len(cpairs), 2):
+        # (small translation units: a change that makes one instantiation ill-formed must not hide the others)
+        body = '#include "%s"\nint main(){ install(); Rng rng(seed_from_env()+3200+%d);\n' % (__file__.replace('.py', '.h'), i)
+        for (nest, t, v) in cpairs[i:i + 2]:
+            body += '  gconst<%s, %dLL>(rng);\n' % (NESTS[nest].format(T=CT[t]), v)
+        body += '}\n'
+        res.append(dict(name='C12_const_%d' % (i // 2), src=body, compiler='g++'))
+    # ++ / -- with non-zero exponents, radix 2, 10 and 3
+    body = '#include "%s"\nint main(){ install(); Rng rng(seed_from_env()+3100);\n' % (__file__.replace('.py', '.h'))
+    for (t, e, rx) in [('i32', -2, 10), ('i8', -3, 2), ('u8', -1, 10), ('i16', -4, 2), ('u16', -2, 3), ('i64', -3, 10), ('i32', -16, 2), ('u32', -1, 3), ('i16', 0, 10)]:
+        body += '  incdece<scaled_integer<%s, power<%d, %d>>>(rng);\n' % (CT[t], e, rx)
+    body += '}\n'
+    res.append(dict(name='C12_ince', src=body, compiler='g++'))
     # shift-and-compare equivalence: mixed-exponent comparisons over narrow reps, both operand orders
     # (lines of the C03 table; the driver's oracle is the built-in comparison of the aligned representations)
     import os
